@@ -52,7 +52,7 @@ def variants():
 
 
 def budget(tier):
-    return 6 if tier == "quick" else 16
+    return 6 if tier == "quick" else 10
 
 
 def decode_case(raw):
